@@ -222,7 +222,9 @@ def cases(draw):
     nd = draw(st.integers(0, min(3, len(disp))))
     for n in draw(st.lists(st.sampled_from(disp), min_size=nd, max_size=nd, unique=True)) if disp else []:
         pd[n + "_pd"] = draw(st.sampled_from([0.1, 0.3, 0.6, 1.5]))
-        pd[n + "_pd_n"] = draw(st.sampled_from([2, 3, 5, 9]))
+        # meshes on both sides of the compiled kernels' 100-point chunk (the Python path has no chunks)
+        pd[n + "_pd_n"] = draw(st.sampled_from({0: [2], 1: [2, 3, 5, 9, 40, 101, 130], 2: [2, 3, 5, 9, 12, 15],
+                                               3: [2, 3, 5, 6, 9]}[nd]))
         pd[n + "_pd_type"] = draw(st.sampled_from(["gaussian", "uniform", "schulz", "rectangle"]))
     dim = draw(st.sampled_from(["1d", "1d", "2d"]))
     case = {"def": d, "pars": pars, "pd": pd, "dim": dim, "cutoff": draw(st.sampled_from([0.0, 0.0, 1e-3, 0.05])),
